@@ -177,6 +177,41 @@ def _probe_env(extra):
     return True
 
 
+def every_module(mi: int) -> bool:
+    """
+    pre: 0 <= mi < 200
+    post: _
+    """
+    # one new member for EVERY module of the live table (tables that share structure show only for the modules involved)
+    if mi >= len(MODS):
+        return True
+    mi = pin(mi, 0, len(MODS) - 1)
+    with native():
+        adds = [MODS[mi] + ".zqv_only_here"]
+        u = FicklingMLUnpickler(io.BytesIO(b"N."), also_allow=adds)
+        rt.reach()
+        got = {(m, n) for m, d in u.allowlist.items() for n in d}
+        base = {(m, n) for m, d in PRISTINE.items() for n in d}
+        ok = got == base | {(MODS[mi], "zqv_only_here")}
+        for m in MODS:
+            ok = ok and permitted(u, m, "zqv_only_here") == (m == MODS[mi])
+        try:
+            hook.activate_safe_ml_environment(also_allow=adds)
+            for m in MODS[:3] + [MODS[mi]]:
+                data = ("c%s\nzqv_only_here\n." % m).encode()
+                try:
+                    pickle.loads(data)
+                    allowed = True
+                except UnsafeFileError:
+                    allowed = False
+                except Exception:
+                    allowed = True
+                ok = ok and allowed == (m == MODS[mi])
+        finally:
+            hook.remove_hook()
+        return ok and table_pristine()
+
+
 def history(h: List[int]) -> bool:
     """
     pre: len(h) <= 4 and all(0 <= x < 14 for x in h)
@@ -242,6 +277,8 @@ def lemmas(tier):
         Lemma("one_step", one_step, timeout=300 if q else 900, dry=[{"op": 0, "a": 5, "b": 2}, {"op": 1, "a": 2, "b": 0}, {"op": 0, "a": 5, "b": len(ADDS) - 2}, {"op": 0, "a": 2, "b": len(ADDS) - 1}],
               doc={"F": ["operation: construct / activate+probe+reactivate / analysis / two live instances", "additions a, b from %d table-derived classes" % len(ADDS)],
                    "bound": "one operation from the pristine table (inductive: the post-state is again pristine)"}),
+        Lemma("every_module", every_module, timeout=300 if q else 900, dry=[{"mi": 0}, {"mi": len(MODS) // 2}],
+              doc={"F": ["module: each of the %d modules of the live ML_ALLOWLIST gets one new member; the instance must permit it for that module only" % len(MODS)], "bound": "one addition"}),
         Lemma("history", history, timeout=400 if q else 1800, dry=[{"h": [2, 13, 8]}, {"h": [1, 10, 13]}, {"h": [2, 13, 8, 9]}, {"h": [11, 12]}],
               doc={"F": ["histories of length <= %d over activate(8 addition sets) / deactivate / construct(4 addition sets) / probe: 14 symbols" % HMAX[0]],
                    "bound": "length <= %d" % HMAX[0]}),
